@@ -168,6 +168,8 @@ FunctorManager::Env FunctorManager::createEnv(Context& caller, unsigned id, cons
     _ctx->recursion(r + 1);
     _ctx->trace(caller.trace());
     _ctx->returnCondition(false);
+    /* the error a handler of an earlier call was processing is not part of this call */
+    _ctx->error(RuntimeError());
     /* local variables start every call unset: reset the recycled storage
      * from the pristine context, as createChildRuntime does for a new one */
     const Context * pristine = entry.functor->ctx;
